@@ -158,3 +158,65 @@ class Report:
                                           st["obligations"], st["unsat"], st["sat"], st["unknown"], st["paths"],
                                           n_known, n_viol, time.time() - self.t0))
         return code
+
+
+def guarded(fn):
+    """pool workers must never die with an exception (a dead worker hangs the pool): turn any failure into a
+    partial result that makes the check INCONCLUSIVE"""
+    import functools
+    import traceback
+
+    @functools.wraps(fn)
+    def w(*a, **k):
+        from . import explorer
+        try:
+            return fn(*a, **k)
+        except BaseException as e:      # noqa
+            tb = traceback.format_exc().strip().splitlines()
+            return dict(violations=[], inconclusive=[], errors=["worker %s%r crashed: %r | %s" % (fn.__name__, a[:1], e, " / ".join(tb[-4:]))],
+                        samples=[], stats=explorer.STATS, crashed=True)
+    return w
+
+
+def merge_part(rep, part):
+    from . import explorer
+    for v in part.get("violations", []):
+        rep.violation(*v)
+    rep.inconclusive += part.get("inconclusive", [])
+    rep.harness_errors += part.get("errors", [])
+    for s in part.get("samples", []):
+        rep.sample(s)
+    if part.get("stats") is not None:
+        explorer.STATS.merge(part["stats"])
+
+
+def run_jobs(rep, fn, jobs, nproc=None, timeout_s=600, merge=True):
+    """run fn(job) for every job in a fork pool; a job that does not answer within timeout_s (or whose worker died)
+    makes the check INCONCLUSIVE instead of hanging it.  Returns the list of partial results (None for lost jobs)."""
+    import multiprocessing as mp
+    import time
+    nproc = nproc or max(1, min(16, os.cpu_count() or 1))
+    ctx = mp.get_context("fork")
+    pool = ctx.Pool(min(nproc, max(1, len(jobs))))
+    out = []
+    try:
+        rs = [pool.apply_async(fn, (j,)) for j in jobs]
+        deadline = time.time() + timeout_s
+        for j, r in zip(jobs, rs):
+            try:
+                part = r.get(timeout=max(1.0, deadline - time.time()))
+            except mp.TimeoutError:
+                rep.inconc("job %r of %s did not answer within %d s" % (j if len(repr(j)) < 80 else repr(j)[:80], fn.__name__, timeout_s))
+                out.append(None)
+                continue
+            except BaseException as e:      # result could not be transported
+                rep.error("job %r of %s failed: %r" % (j if len(repr(j)) < 80 else repr(j)[:80], fn.__name__, e))
+                out.append(None)
+                continue
+            if merge and isinstance(part, dict):
+                merge_part(rep, part)
+            out.append(part)
+    finally:
+        pool.terminate()
+        pool.join()
+    return out
